@@ -23,10 +23,17 @@ func has(v *vrt.Ctx, s string, c byte) bool {
 }
 
 // classes marks the input classes of finding F9.
-func classes(v *vrt.Ctx, which int, s1, s2, k1, k2 string) {
+func classes(v *vrt.Ctx, which int, listing bool, t1, t2 uint8, s1, s2, k1, k2 string) {
+	// F9 (separator): the storage key is session + "." + key with nothing
+	// escaped, so names with a dot in them can collide
 	dots := v.Or(v.Or(has(v, s1, '.'), has(v, s2, '.')), v.Or(has(v, k1, '.'), has(v, k2, '.')))
-	oneEmpty := (len(s1) == 0) != (len(s2) == 0)
-	v.Finding("F9-dot-separator-collision", v.Or(dots, oneEmpty))
+	if listing {
+		// a listing without session id has no prefix to stop at: it runs over
+		// the records of every session ("" + "a.b" = "a" + "b", seen from the
+		// listing side)
+		dots = v.Or(dots, (len(s1) == 0) != (len(s2) == 0))
+	}
+	v.Finding("F9-dot-separator-collision", dots)
 	if which == 1 || which == 2 {
 		slashes := v.Or(v.Or(has(v, s1, '/'), has(v, s2, '/')), v.Or(has(v, k1, '/'), has(v, k2, '/')))
 		v.Finding("F9-fs-path-separator-in-name", slashes)
@@ -37,7 +44,20 @@ func classes(v *vrt.Ctx, which int, s1, s2, k1, k2 string) {
 			c := s[0]
 			return v.Or(v.Or(c == '1', c == '2'), v.Or(v.Or(c == '4', c == '8'), v.Or(c == 'P', c == '@')))
 		}
-		v.Finding("F9-fs-legacy-file-names", v.Or(v.Or(first(k1), first(k2)), v.Or(first(s1), first(s2))))
+		// F9 (legacy names): a read falls back to the file named by the
+		// storage key without its type character, i.e. "<session>.<key>" for
+		// the sessioned types and the key itself for the others; only a name
+		// that begins with a type character there can be another record's
+		legacy := func(t uint8, s, k string) bool {
+			if t&sessioned == 0 {
+				return first(k)
+			}
+			if len(s) == 0 {
+				return first(k)
+			}
+			return first(s)
+		}
+		v.Finding("F9-fs-legacy-file-names", v.Or(legacy(t1, s1, k1), legacy(t2, s2, k2)))
 	}
 }
 
@@ -60,7 +80,7 @@ func Inject(v *vrt.Ctx) {
 			store.SetLock(t, false)
 		}
 	}
-	classes(v, which, s1, s2, k1, k2)
+	classes(v, which, false, t1, t2, s1, s2, k1, k2)
 	same := t1 == t2 && k1 == k2
 	if same && t1&sessioned != 0 {
 		same = s1 == s2
@@ -116,7 +136,7 @@ func List(v *vrt.Ctx) {
 			store.SetLock(t, false)
 		}
 	}
-	classes(v, which, s1, s2, k1, k2)
+	classes(v, which, true, t1, t2, s1, s2, k1, k2)
 	sameScope := t1 == t2
 	if sameScope && t1&sessioned != 0 {
 		sameScope = s1 == s2
@@ -147,7 +167,36 @@ func List(v *vrt.Ctx) {
 	v.Cover("C11/listed")
 }
 
+// Crafted: a record of a session-scoped type stored without a session id (its
+// file name is the type character followed by the key), and a client of
+// another, non-empty session that asks for a key of its own choosing, long
+// enough to spell that file name: it reads nothing. (Filesystem backend; the
+// legacy-name fallback is the mechanism this walks into.)
+func Crafted(v *vrt.Ctx) {
+	which := v.Param("backend")
+	ctx := context.Background()
+	store := c10.Open(v, ctx, which)
+	t1 := []uint8{db.DATATYPE_STATE, db.DATATYPE_USERDATA}[v.Choice("type-one", 2)]
+	t2 := types[v.Choice("type-two", len(types))]
+	k1 := v.Str("key-one", 1)
+	s2 := v.Str("session-two", 1)
+	k2 := v.Str("key-two", 2)
+	if t2&sessioned == 0 {
+		store.SetLock(t2, false)
+	}
+	classes(v, which, false, t1, t2, "", s2, k1, k2)
+	store.SetPrefix(t1)
+	store.SetSession("")
+	v.Assume(store.Put(ctx, []byte(k1), []byte("A")) == nil)
+	store.SetPrefix(t2)
+	store.SetSession(s2)
+	_, err := store.Get(ctx, []byte(k2))
+	v.Assert(err != nil, "C11/crafted-key-reads-nothing")
+	v.Cover("C11/crafted")
+}
+
 var Harnesses = map[string]func(*vrt.Ctx){
+	"Crafted": Crafted,
 	"List":   List,
 	"Inject": Inject,
 }
